@@ -14,7 +14,7 @@ def run(payload):
     fails, cases = [], 0
 
     def fail(kind, **kw):
-        if len(fails) < 8:
+        if len(fails) < 40 and not any(f["id"] == kind and f.get("how") == kw.get("how") and f.get("cls") == kw.get("cls") for f in fails):
             fails.append({"id": kind, **kw})
 
     sm = np.shares_memory
@@ -74,6 +74,39 @@ def run(payload):
                         if sm(g._data_full, f._data_full):
                             fail("result_aliases_source", op=name, cls=type(f).__name__, **tag)
                 fc2 = fc.copy(); fc3 = fc2.append(s.copy()) if hasattr(fc2, "append") else None
+                # every way of obtaining a collection: its members are views of its data (write through a member is
+                # seen in the collection and vice versa); the sources are left alone
+                import copy as _copy, pickle as _pickle
+                makers = {"copy_fields=True": lambda: FieldCollection([s, v, t], copy_fields=True), "slice": lambda: fc[0:3], "copy()": lambda: fc.copy(),
+                          "append": lambda: fc[0:2].append(t.copy()), "duplicate_members": lambda: FieldCollection([s, v, t, s]),
+                          "deepcopy": lambda: _copy.deepcopy(fc), "pickle": lambda: _pickle.loads(_pickle.dumps(fc))}
+                for how, make in makers.items():
+                    src_before = fc.data.copy()
+                    try:
+                        c = make()
+                    except Exception as e:
+                        fail("error", where=f"collection via {how}", error=f"{type(e).__name__}: {e}", **tag)
+                        continue
+                    if not sm(c.data, c._data_full):
+                        fail("data_is_view_of_padded", cls=f"FieldCollection via {how}", **tag)
+                    c[1].data[0, ...] = 21.0
+                    c[0] = 22.0
+                    if not np.all(c.data[1] == 21.0) or not np.all(c.data[0] == 22.0):
+                        fail("write_through_member_not_seen_in_collection", how=how, **tag)
+                    c.data[1] = 23.0
+                    if not np.all(c[1].data[0] == 23.0):
+                        fail("write_to_collection_not_seen_in_member", how=how, **tag)
+                    if sm(c.data, fc.data) or not np.array_equal(fc.data, src_before):
+                        fail("result_aliases_source", op=f"collection via {how}", cls="FieldCollection", **tag)
+                # pickled / deep-copied fields: data stays a live view of the padded array; no aliasing with the source
+                for f in (s, v, t):
+                    for how, make in (("deepcopy", _copy.deepcopy), ("pickle", lambda x: _pickle.loads(_pickle.dumps(x)))):
+                        c = make(f)
+                        c.data[...] = 31.0
+                        if not sm(c.data, c._data_full) or not np.all(c._data_full[valid] == 31.0):
+                            fail("data_is_view_of_padded", cls=f"{type(f).__name__} via {how}", **tag)
+                        if sm(c._data_full, f._data_full) or np.any(f.data == 31.0):
+                            fail("result_aliases_source", op=how, cls=type(f).__name__, **tag)
                 # in-place operations: only valid cells, not ghost cells, not other fields
                 for f in (s, v, t):
                     f._data_full[...] = rng.uniform(-1, 1, f._data_full.shape)
